@@ -46,8 +46,15 @@ func registerEnvStubs() {
 	stubs["(*sync.RWMutex).RUnlock"] = unlock
 
 	// time: opaque instants; time.After returns a timer channel whose readiness is decided by the harness environment
+	// time.Now: a virtual clock that only moves when the harness calls vndAdvanceTime (150 ms per call, like its
+	// native twin's sleep). The value is a wall-clock Time without monotonic reading, so Add/Sub/After run as real code.
 	stubs["time.Now"] = func(x *Exec, f *Closure, a []Value, cc *ssa.CallCommon) Value {
-		return x.zero(f.Fn.Signature.Results().At(0).Type())
+		t := x.zero(f.Fn.Signature.Results().At(0).Type()).(StructV)
+		const baseSec = 63_800_000_000 // seconds since year 1 (some day in 2022)
+		ns := x.clockNS
+		t.F[0] = x.ctx.Const(64, uint64(ns%1_000_000_000))
+		t.F[1] = x.ctx.ConstS(64, baseSec+ns/1_000_000_000)
+		return t
 	}
 	// sync/atomic primitives (sequential model: goroutines are run to completion at their spawn point)
 	load := func(x *Exec, f *Closure, a []Value, cc *ssa.CallCommon) Value { return x.load(a[0].(Ptr)) }
